@@ -5,8 +5,8 @@ Piecewise-linear interpolation as the code uses it:
 * `scipy.interpolate.interp1d(xp, fp)(x)` with the default `bounds_error` (a `ValueError` outside the range,
   turned into `SpectrumError` by `Fiber.interpolate_parameter_over_spectrum`) – used for the per-frequency
   loss coefficient and the per-frequency dispersion.
-Knots are `(x, y)` pairs sorted by ascending `x` (the generators emit them sorted; `interp1d` sorts, `numpy.interp`
-requires it).
+Knots are `(x, y)` pairs.  `numpy.interp` requires ascending `x`; `interp1d` sorts its table itself, so per-frequency
+tables may be listed in any order (`sortKnots`).
 -/
 namespace Gnpy.Interp
 
@@ -27,15 +27,28 @@ def interp (x : α) : List (α × α) → α
   | [] => ((0:Nat) : α)
   | k :: rest => if x ≤ k.1 then k.2 else interpGo x k rest
 
+/-- `interp1d` sorts its table by abscissa (`assume_sorted=False`: stable argsort); tables may be listed in any
+order (e.g. by increasing wavelength) -/
+def insertKnot (k : α × α) : List (α × α) → List (α × α)
+  | [] => [k]
+  | q :: rest => if k.1 < q.1 then k :: q :: rest else q :: insertKnot k rest
+
+def sortKnots : List (α × α) → List (α × α)
+  | [] => []
+  | k :: rest => insertKnot k (sortKnots rest)
+
 /-- abscissa of the last knot -/
 def lastX : (α × α) → List (α × α) → α
   | k, [] => k.1
   | _, k1 :: rest => lastX k1 rest
 
-/-- `interp1d(xp, fp)(x)` with `bounds_error=True`: `none` stands for the `ValueError` -/
-def interp1d (x : α) : List (α × α) → Option α
+/-- `interp1d` on a table already sorted by abscissa, `bounds_error=True`: `none` stands for the `ValueError` -/
+def interp1dSorted (x : α) : List (α × α) → Option α
   | [] => none
   | k :: rest => if x < k.1 then none else if lastX k rest < x then none else some (interp x (k :: rest))
+
+/-- `interp1d(xp, fp)(x)`: the table is sorted first, whatever order it was listed in -/
+def interp1d (x : α) (table : List (α × α)) : Option α := interp1dSorted x (sortKnots table)
 
 end
 end Gnpy.Interp
